@@ -574,6 +574,59 @@ let do_lock (rest : string) : string =
    with Exit -> ());
   !res
 
+
+(* ---------- cross-check of the extraction: the same case as a Coq Example, to be
+   evaluated by the kernel's VM (vm_compute) ---------- *)
+let coq_n (x : n) = string_of_n x ^ "%N"
+let coq_pair (a, b) = Printf.sprintf "(%s, %s)" (coq_n a) (coq_n b)
+let coq_opt f o = match o with None -> "None" | Some x -> "(Some " ^ f x ^ ")"
+let coq_list f l = "[" ^ String.concat "; " (List.map f l) ^ "]"
+let coq_bytes (b : byte list) =
+  coq_list (fun c -> Printf.sprintf "Byte.x%02x" (int_of_byte c)) b
+let coq_rstate (s : rstate) =
+  Printf.sprintf "(mkRState %s %s %s %s %s)" (coq_opt coq_pair s.r_vote) (coq_opt coq_pair s.r_last)
+    (coq_opt coq_pair s.r_committed) (coq_opt coq_pair s.r_purged) (coq_opt coq_bytes s.r_user)
+let coq_cfg (c : config) =
+  Printf.sprintf "(mkConfig %s %s %s %s %b)" (coq_n c.c_max_items) (coq_n c.c_capacity) (coq_n c.c_max_records)
+    (coq_n c.c_max_size) c.c_truncate
+let coq_wop (w : wop) = match w with
+  | OVote v -> "(OVote " ^ coq_pair v ^ ")"
+  | OAppend es -> "(OAppend " ^ coq_list (fun (id, p) -> "(" ^ coq_pair id ^ ", " ^ coq_bytes p ^ ")") es ^ ")"
+  | OTruncate i -> "(OTruncate " ^ coq_n i ^ ")"
+  | OPurge u -> "(OPurge " ^ coq_pair u ^ ")"
+  | OCommit u -> "(OCommit " ^ coq_pair u ^ ")"
+  | OUser u -> "(OUser " ^ coq_opt coq_bytes u ^ ")"
+  | OUpdateState st -> "(OUpdateState " ^ coq_rstate st ^ ")"
+let coq_op (o : op) = match o with
+  | OW w -> "(OW " ^ coq_wop w ^ ")"
+  | OFlush b -> Printf.sprintf "(OFlush %b)" b
+  | ORead (a, b) -> Printf.sprintf "(ORead %s %s)" (coq_n a) (coq_n b)
+  | ODumpIter -> "ODumpIter" | OStat -> "OStat" | OSize -> "OSize" | OIdle -> "OIdle" | ODrain -> "ODrain"
+  | ORestart c -> "(ORestart " ^ coq_cfg c ^ ")"
+let coq_ekind k = "K" ^ str_kind k
+let coq_ritem (i : ritem) = match i with
+  | RIOk (id, p) -> "(RIOk " ^ coq_pair id ^ " " ^ coq_bytes p ^ ")"
+  | RIErr k -> "(RIErr " ^ coq_ekind k ^ ")"
+  | RIPanic -> "RIPanic"
+
+(* what the OCaml side computed for the case, as a Coq term: the final Raft state, the
+   full read and the directory (ids and lengths with CRC-32 of the content) *)
+let do_coq (idx : string) (rest : string) : string =
+  match split_on '|' rest with
+  | [cfg; ops] ->
+    let c = p_cfg (toks cfg) in
+    let os = List.filter_map (fun x -> match x with Op o -> Some o | _ -> None) (parse_ops ops) in
+    let (res, fin) = run_case c os in
+    let summary = (match fin with
+        | None -> "None"
+        | Some y ->
+          let items = snd (do_read y.y_core y.y_disk N0 (n_of_string "100000")) in
+          Printf.sprintf "(Some (%s, %s, %s))" (coq_rstate y.y_core.k_sm.m_rs) (coq_list coq_ritem items)
+            (coq_list (fun f -> Printf.sprintf "(%s, %s, %s)" (coq_n f.f_id) (coq_n (n_of_int (List.length f.f_data))) (coq_n (crc32 f.f_data))) y.y_disk)) in
+    Printf.sprintf "Example x%s : summary (run_case %s %s) = %s. Proof. vm_compute. reflexivity. Qed." idx (coq_cfg c)
+      (coq_list coq_op os) summary
+  | _ -> failwith "bad COQ"
+
 let do_enc (rest : string) : string =
   let r = p_record (toks rest) in
   let b = enc_record r in
@@ -605,6 +658,10 @@ let () =
              | "DEC" -> do_dec rest
              | "TRACE" -> do_trace rest
              | "LOCK" -> do_lock rest
+             | "COQ" -> (match toks rest with
+                 | idx :: _ -> let r = String.trim rest in
+                   let r' = String.sub r (String.length idx) (String.length r - String.length idx) in do_coq idx r'
+                 | [] -> "badcase")
              | "NAME" -> hex_of_bytes (chunk_file_name (n_of_string (String.trim rest)))
              | "PARSE" -> (match parse_chunk_file_name (bytes_of_hex (String.trim rest)) with
                            | Some n -> "some " ^ string_of_n n | None -> "none")
